@@ -57,3 +57,22 @@ pub open spec fn fin_ok(bytes: Seq<u8>, pos: int, n: int, comment: Seq<u8>, cs: 
     &&& pos == tail + 22 + comment.len()
     &&& (!z64 ==> e.n_total as int == n && e.cd_size as int == csz && e.cd_off as int == cs)
 }
+
+// ---- C01/C19: the metadata of a freshly started entry is what the caller asked for
+pub open spec fn entry_meta_as_asked(f: ZipFileData, o: FileOptions, method: CompressionMethod) -> bool {
+    f.compression_method == method && f.compression_level == o.compression_level
+    && f.last_modified_time == o.last_modified_time && f.large_file == o.large_file
+    && f.encrypted == (o.encrypt_with is Some) && f.system == System::Unix && f.file_comment@.len() == 0
+}
+// ---- frame: an operation on an open entry may change its sizes, CRC, extra field and data start, nothing else
+pub open spec fn entry_identity_kept(a: ZipFileData, b: ZipFileData) -> bool {
+    b.file_name == a.file_name && b.file_comment == a.file_comment && b.last_modified_time == a.last_modified_time
+    && b.header_start == a.header_start && b.large_file == a.large_file && b.compression_method == a.compression_method
+    && b.compression_level == a.compression_level && b.encrypted == a.encrypted && b.system == a.system
+    && b.external_attributes == a.external_attributes && b.version_made_by == a.version_made_by
+    && b.using_data_descriptor == a.using_data_descriptor && b.aes_mode == a.aes_mode
+}
+// TRUSTED (std): `impl<T> From<T> for T` is the identity, so a String converts into itself (used by add_directory, which
+// hands start_entry the String it built)
+pub axiom fn axiom_string_into_string(s: String)
+    ensures <String as IntoSpec<String>>::obeys_into_spec(), IntoSpec::<String>::into_spec(s) == s;
